@@ -92,6 +92,21 @@ func c12Gen(seed int64, idx int) c12Case {
 		yang.SortSections(m)
 		c12Shuffle(r, m, true)
 	case 8:
+		if idx%40 >= 20 {
+			// two different groupings named x in disjoint scopes, one reached from the other: x (in a1) uses y,
+			// y contains its own x and uses it.  No grouping refers to itself.
+			head := func() *yang.Stmt {
+				return yang.S("module", "fx-hs", yang.S("namespace", "urn:verif:fx-hs"), yang.S("prefix", "hs"))
+			}
+			src := head()
+			src.Add(yang.S("container", "a", yang.S("container", "a1", yang.S("grouping", "x", yang.S("uses", "y")), yang.S("uses", "x"))),
+				yang.S("grouping", "y", yang.S("container", "inner", yang.S("grouping", "x", yang.S("leaf", "l", yang.S("type", "string"))), yang.S("uses", "x"))))
+			inl := head()
+			inl.Add(yang.S("container", "a", yang.S("container", "a1", yang.S("container", "inner", yang.S("leaf", "l", yang.S("type", "string"))))))
+			c.ms = &yang.ModSet{Mods: []*yang.Stmt{src}}
+			c.inlined = &yang.ModSet{Mods: []*yang.Stmt{inl}}
+			return c
+		}
 		// fixed two-module pair with its inline definition written by hand: what belongs to the grouping
 		// itself (description, reference, a typedef named like one of its leaves) and what is written
 		// inside a uses (a refine of that leaf, an augment that uses a grouping of the using module whose
@@ -314,7 +329,7 @@ func (p *c12) Run(tier string, seed int64, idx int) core.CaseResult {
 		res.Fail("C12/schema-differs-from-inline-definition", both, firstDiff(id, fd)+"\n(- inlined, + factored)")
 	}
 	// fixed pair only: an augment written in a submodule whose belongs-to prefix is not the module's prefix
-	if c.inlined != nil {
+	if c.inlined != nil && c.ms.Mods[0].Arg == "fx-user" {
 		v := c.ms.Clone()
 		u := v.Mods[0]
 		u.Add(yang.S("include", "fx-user-sub"))
